@@ -176,6 +176,7 @@ func buildCases(st map[string]int) []Case {
 	for _, k := range []string{"SearchPromises", "SearchSchedules"} {
 		cases = append(cases, Case{Endpoint: "cursor:" + k, Kind: k, Mode: "cursor", Status: 0, Producible: true})
 	}
+	cases = append(cases, Case{Endpoint: "auth:http", Kind: "CreatePromise", Mode: "auth", Status: 20100, Producible: true})
 	// request translation: every kind, several generated contents
 	for i := 0; i < 40; i++ {
 		for _, k := range kindsInOrder {
@@ -262,11 +263,12 @@ func main() {
 		if *prop == "C14" && !(c.Mode == "cursor" || (c.Mode == "translate" && (c.Kind == "SearchPromises" || c.Kind == "SearchSchedules"))) {
 			continue // C14: the query the kernel is asked is the query the client sent
 		}
-		if *prop == "C12" && !c.Slow {
+		if *prop == "C12" && !c.Slow && c.Mode != "auth" {
 			continue // C12: a reply later than the configured timeout is still a reply
 		}
-		if *prop == "C03" && !(c.Mode == "translate" && (c.Kind == "CreatePromise" || c.Kind == "CreatePromiseAndTask" || c.Kind == "CompletePromise" || c.Kind == "CreateSchedule")) {
-			continue // C03 uses the front ends only for what they do to idempotency keys and the strict flag
+		c03kind := c.Kind == "CreatePromise" || c.Kind == "CreatePromiseAndTask" || c.Kind == "CompletePromise" || c.Kind == "CreateSchedule"
+		if *prop == "C03" && !(c03kind && (c.Mode == "translate" || (c.Mode == "status" && !c.Slow && (c.Status == 20000 || c.Status == 20100)))) {
+			continue // C03 uses the front ends only for what they do to idempotency keys and the strict flag, and for how "done now" (201) and "already done, acknowledged" (200) are told apart in the reply
 		}
 		if i%*nshards == *shard {
 			mine = append(mine, c)
@@ -305,7 +307,7 @@ func main() {
 		}
 		rep.Hit("endpoint." + c.Endpoint)
 		for i, p := range r.Problems {
-			if *prop == "C03" && !strings.HasPrefix(r.Sig[i], "translate:idempotency-fields:") {
+			if *prop == "C03" && !strings.HasPrefix(r.Sig[i], "translate:idempotency-fields:") && !strings.HasPrefix(r.Sig[i], "grpc-flag:noop:") && !strings.HasPrefix(r.Sig[i], "http-status:") {
 				continue
 			}
 			record(c, r.Sig[i], fmt.Sprintf("%s status %d (%s, %s/%s): %s", c.Endpoint, c.Status, c.Name, c.Form, c.Shape, p))
